@@ -1,5 +1,479 @@
 (* C02: lemmas about Topo/Api.v and Topo/Insert.v *)
-From Coq Require Import List NArith ZArith Bool String Lia.
+From Coq Require Import List NArith ZArith Bool String Lia Permutation.
 From HV Require Import Base.BSet Gen.Tables Text.TypeOrder Topo.Dump Topo.WFCheck Topo.Obj Topo.Insert Topo.Api.
 Import ListNotations.
 Local Open Scope N_scope.
+
+(* ------------------------------------------------------------------ *)
+(* induction principle for the nested tree                             *)
+
+Section ObjInd.
+  Variable P : obj -> Prop.
+  Hypothesis H : forall d n m i x, Forall P n -> Forall P m -> Forall P i -> Forall P x -> P (Obj d n m i x).
+  Fixpoint obj_ind4 (o : obj) : P o :=
+    match o with
+    | Obj d n m i x =>
+        let fix go (l : list obj) : Forall P l :=
+          match l with [] => Forall_nil P | c :: tl => Forall_cons c (obj_ind4 c) (go tl) end in
+        H d n m i x (go n) (go m) (go i) (go x)
+    end.
+End ObjInd.
+
+(* ------------------------------------------------------------------ *)
+(* the put-back path loses nothing                                     *)
+
+Lemma skip_lt_app t l : fst (skip_lt t l) ++ snd (skip_lt t l) = l.
+Proof.
+  induction l as [|h tl IH]; cbn [skip_lt]; [reflexivity|].
+  destruct (obj_first_lt (odata h) (odata t)); [|reflexivity].
+  destruct (skip_lt t tl) as [a b]. cbn [fst snd] in *. now rewrite <- IH.
+Qed.
+
+Lemma putback_perm taken : forall l, Permutation (putback l taken) (l ++ taken).
+Proof.
+  induction taken as [|t ts IH]; intros l; cbn [putback].
+  - now rewrite app_nil_r.
+  - pose proof (skip_lt_app t l) as E. destruct (skip_lt t l) as [a b]. cbn [fst snd] in E. subst l.
+    rewrite <- app_assoc. apply Permutation_app_head.
+    rewrite (IH (t :: b)). cbn [app]. apply Permutation_middle.
+Qed.
+
+(* every child that was moved below OBJ is back in CUR's list, and nothing else changed *)
+Lemma putback_from_perm k full taken :
+  Permutation (firstn k full ++ putback (skipn k full) taken) (full ++ taken).
+Proof.
+  rewrite putback_perm, app_assoc, firstn_skipn. reflexivity.
+Qed.
+
+Lemma link_at_perm kept_rev p o : Permutation (link_at kept_rev p o) (o :: rev kept_rev).
+Proof.
+  unfold link_at. destruct p as [k|].
+  - rewrite <- Permutation_middle. now rewrite firstn_skipn.
+  - rewrite Permutation_app_comm. reflexivity.
+Qed.
+
+(* the scan of the put-back path keeps the relative order of the children that never left CUR *)
+Lemma skip_lt_prefix t l : exists a b, skip_lt t l = (a, b) /\ l = a ++ b /\ Forall (fun h => obj_first_lt (odata h) (odata t) = true) a.
+Proof.
+  induction l as [|h tl IH]; cbn [skip_lt].
+  - exists [], []. repeat split. constructor.
+  - destruct (obj_first_lt (odata h) (odata t)) eqn:E.
+    + destruct IH as (a & b & E1 & E2 & E3). rewrite E1. exists (h :: a), b. repeat split.
+      * now rewrite E2.
+      * constructor; assumption.
+    + exists [], (h :: tl). repeat split. constructor.
+Qed.
+
+(* ------------------------------------------------------------------ *)
+(* hwloc___insert_object_by_cpuset, one level                          *)
+
+Section LoopFacts.
+  Variable rec : obj -> obj -> obj * outcome.
+  Variable dms : list N.
+  Variable dm_new : bool.
+  Variable d : dobj.
+  Variables m i x : list obj.
+
+  Definition flat_child (o c : obj) : Prop :=
+    match verdict_of dms dm_new (odata o) (odata c) with VDifferent | VTake false => True | _ => False end.
+
+  (* OBJ keeps its payload through the loop (only its memory children can change) *)
+  Definition stays (c : obj) (o : obj) : bool :=
+    match verdict_of dms dm_new (odata o) (odata c) with VDifferent => true | _ => false end.
+
+  (* When every child is either disjoint from OBJ or strictly contained in it, the loop inserts OBJ:
+     the disjoint children stay, in order; the contained ones become OBJ's children, in order. *)
+  Lemma ins_loop_flat : forall l kept_rev taken putp o,
+    Forall (flat_child o) l ->
+    exists p,
+      ins_loop rec dms dm_new d m i x l kept_rev taken putp o =
+      (Obj d (link_at (rev (filter (fun c => stays c o) l) ++ kept_rev) p
+                      (with_children o (taken ++ filter (fun c => negb (stays c o)) l))) m i x, OInserted).
+  Proof.
+    induction l as [|c tl IH]; intros kept_rev taken putp o Hall.
+    - exists putp. cbn [ins_loop filter rev app]. rewrite app_nil_r. reflexivity.
+    - inversion Hall as [|c0 tl0 Hc Htl]; subst.
+      unfold flat_child in Hc. cbn [ins_loop filter].
+      destruct (verdict_of dms dm_new (odata o) (odata c)) as [| | | | | |[|]] eqn:V; try contradiction.
+      + assert (S : stays c o = true) by (unfold stays; rewrite V; reflexivity).
+        rewrite S. cbn [negb].
+        destruct (IH (c :: kept_rev) taken (next_putp putp kept_rev o c) o Htl) as [p Hp].
+        exists p. rewrite Hp. cbn [rev]. rewrite <- app_assoc. reflexivity.
+      + assert (S : stays c o = false) by (unfold stays; rewrite V; reflexivity).
+        rewrite S. cbn [negb].
+        destruct (IH kept_rev (taken ++ [c]) putp o Htl) as [p Hp].
+        exists p. rewrite Hp. rewrite <- app_assoc. reflexivity.
+  Qed.
+
+  Lemma filter_partition_perm {A} (f : A -> bool) (l : list A) :
+    Permutation (filter f l ++ filter (fun a => negb (f a)) l) l.
+  Proof.
+    induction l as [|a tl IH]; cbn [filter]; [constructor|].
+    destruct (f a); cbn [negb app].
+    - now constructor.
+    - rewrite <- Permutation_middle. now constructor.
+  Qed.
+
+  (* no child is lost or duplicated by a successful flat insertion: CUR's new children are OBJ plus the
+     children that stayed, OBJ's children are the others, and together they are exactly the old children *)
+  Lemma ins_loop_flat_no_loss : forall l o,
+    Forall (flat_child o) l ->
+    exists (n' K T : list obj),
+      ins_loop rec dms dm_new d m i x l [] [] None o = (Obj d n' m i x, OInserted) /\
+      Permutation n' (with_children o T :: K) /\
+      Permutation (K ++ T) l.
+  Proof.
+    intros l o Hall. destruct (ins_loop_flat l [] [] None o Hall) as [p Hp].
+    exists (link_at (rev (filter (fun c => stays c o) l) ++ []) p (with_children o ([] ++ filter (fun c => negb (stays c o)) l))),
+           (filter (fun c => stays c o) l), (filter (fun c => negb (stays c o)) l).
+    split; [exact Hp|]. split.
+    - rewrite link_at_perm. rewrite app_nil_r, rev_involutive. reflexivity.
+    - apply filter_partition_perm.
+  Qed.
+
+  Definition fail_child (o c : obj) : Prop :=
+    match verdict_of dms dm_new (odata o) (odata c) with VDifferent | VTake false | VFail => True | _ => False end.
+
+  (* "no object lost on the put-back path": when the insertion is abandoned at this level, CUR's children
+     are exactly the old ones (those that had been moved below OBJ are back) *)
+  Lemma ins_loop_fail_no_loss : forall l kept_rev taken putp o n' mm ii xx dd,
+    Forall (fail_child o) l ->
+    ins_loop rec dms dm_new d m i x l kept_rev taken putp o = (Obj dd n' mm ii xx, OFail) ->
+    Permutation n' (rev kept_rev ++ taken ++ l).
+  Proof.
+    induction l as [|c tl IH]; intros kept_rev taken putp o n' mm ii xx dd Hall E.
+    - cbn [ins_loop] in E. discriminate E.
+    - inversion Hall as [|c0 tl0 Hc Htl]; subst. unfold fail_child in Hc. cbn [ins_loop] in E.
+      destruct (verdict_of dms dm_new (odata o) (odata c)) as [| | | | | |[|]] eqn:V; try contradiction.
+      + injection E as _ En _ _ _. subst n'.
+        rewrite putback_from_perm. rewrite <- app_assoc. apply Permutation_app_head.
+        apply Permutation_app_comm.
+      + apply IH in E; [|exact Htl]. rewrite E. cbn [rev]. rewrite <- app_assoc. apply Permutation_app_head.
+        cbn [app]. apply Permutation_middle.
+      + apply IH in E; [|exact Htl]. rewrite E. apply Permutation_app_head.
+        rewrite <- app_assoc. reflexivity.
+  Qed.
+End LoopFacts.
+
+(* ------------------------------------------------------------------ *)
+(* the invariant                                                       *)
+
+Definition ocs (o : obj) : bset := oset (o_cs (odata o)).
+
+Fixpoint pairwise_disjoint (l : list bset) : bool :=
+  match l with
+  | [] => true
+  | s :: tl => forallb (fun u => negb (bs_intersects s u)) tl && pairwise_disjoint tl
+  end.
+
+(* siblings in the order hwloc__object_cpusets_compare_first gives: no child sorts before its predecessor *)
+Fixpoint sorted_first (l : list obj) : bool :=
+  match l with
+  | a :: tl => match tl with b :: _ => negb (obj_first_lt (odata b) (odata a)) | [] => true end && sorted_first tl
+  | [] => true
+  end.
+
+Definition sibs_ok (d : dobj) (n : list obj) : bool :=
+  pairwise_disjoint (map ocs n) && sorted_first n &&
+  forallb (fun c => bs_subset (ocs c) (oset (o_cs d)) && subset_opt (o_ccs (odata c)) (o_ccs d)
+                    && subset_opt (o_nds (odata c)) (o_nds d) && subset_opt (o_cnds (odata c)) (o_cnds d)) n &&
+  match n with [] => true | _ => bs_eqb (union_all (map ocs n)) (oset (o_cs d)) end.
+
+Fixpoint tree_inv (o : obj) : bool :=
+  match o with
+  | Obj d n m i x =>
+      sibs_ok d n && (fix all (l : list obj) : bool := match l with [] => true | c :: tl => tree_inv c && all tl end) n
+  end.
+
+Lemma tree_inv_eq d n m i x : tree_inv (Obj d n m i x) = sibs_ok d n && forallb tree_inv n.
+Proof. reflexivity. Qed.
+
+Definition allowed_ok (t : topo) : Prop :=
+  bs_subset (m_acpu t) (root_set t o_ccs) = true /\ bs_subset (m_anode t) (root_set t o_cnds) = true /\
+  bs_subset (root_set t o_cs) (root_set t o_ccs) = true /\ bs_subset (root_set t o_nds) (root_set t o_cnds) = true.
+
+(* Inv: sibling cpusets pairwise disjoint and ordered, child sets included in the parent's, parent cpuset =
+   union of its normal children's, gp_index unique and below next_gp_index, allowed sets inside the root's
+   complete sets *)
+Definition Inv (t : topo) : Prop :=
+  tree_inv (m_root t) = true /\
+  nodup_N (gps (m_root t)) = true /\
+  Forall (fun g => g < m_next_gp t) (gps (m_root t)) /\
+  allowed_ok t.
+
+(* ------------------------------------------------------------------ *)
+(* calls that do not touch the tree                                    *)
+
+Definition structural (c : call) : bool := match c with CMisc _ _ | CGroup _ => true | _ => false end.
+
+Ltac brk := repeat match goal with
+                   | |- context [match ?x with _ => _ end] => destruct x eqn:?
+                   end.
+
+Lemma step_info_mod_root t g op n v : m_root (fst (step_info_mod t g op n v)) = m_root t.
+Proof. unfold step_info_mod. brk; reflexivity. Qed.
+
+Lemma step_allow_root t f c n : m_root (fst (step_allow t f c n)) = m_root t.
+Proof. unfold step_allow. brk; reflexivity. Qed.
+
+Theorem step_tree_unchanged t c : structural c = false -> m_root (fst (step t c)) = m_root t.
+Proof.
+  destruct c; cbn [structural step]; intros Hs; try discriminate.
+  - apply step_info_mod_root.
+  - apply step_info_mod_root.
+  - brk; reflexivity.
+  - unfold step_subtype. brk; reflexivity.
+  - apply step_allow_root.
+  - reflexivity.
+Qed.
+
+Lemma step_next_gp_mono t c : m_next_gp t <= m_next_gp (fst (step t c)).
+Proof.
+  destruct c; cbn [step].
+  - unfold step_misc. brk; cbn; lia.
+  - unfold step_info_mod. brk; cbn; lia.
+  - unfold step_info_mod. brk; cbn; lia.
+  - brk; cbn; lia.
+  - unfold step_subtype. brk; cbn; lia.
+  - unfold step_allow. brk; cbn; lia.
+  - unfold step_group. brk; cbn; lia.
+  - cbn. lia.
+Qed.
+
+(* ------------------------------------------------------------------ *)
+(* hwloc_topology_allow                                                *)
+
+Lemma subset_inter_l a b c : bs_subset a c = true -> bs_subset (bs_inter a b) c = true.
+Proof.
+  rewrite !bs_subset_spec. intros H i Hi. rewrite mem_inter in Hi. apply andb_true_iff in Hi as [Ha _]. auto.
+Qed.
+Lemma subset_refl a : bs_subset a a = true.
+Proof. rewrite bs_subset_spec. auto. Qed.
+
+Lemma after_cpu_subset (c : option bset) (cs ccs acpu b : bset) :
+  bs_subset acpu ccs = true -> bs_subset cs ccs = true ->
+  match c with
+  | Some c => if bs_intersects cs c then Some (bs_inter cs c) else None
+  | None => Some acpu
+  end = Some b -> bs_subset b ccs = true.
+Proof.
+  intros H1 H3 E. destruct c as [c|].
+  - destruct (bs_intersects cs c); [|discriminate]. injection E as <-. apply subset_inter_l, H3.
+  - injection E as <-. exact H1.
+Qed.
+
+(* allowed sets stay inside the root's complete sets, for every flag word and every argument *)
+Theorem allow_preserves_allowed t f c n : allowed_ok t -> allowed_ok (fst (step_allow t f c n)).
+Proof.
+  intros (H1 & H2 & H3 & H4). unfold step_allow.
+  brk; unfold allowed_ok, root_set in *; cbn [fst m_acpu m_anode m_root set_allowed]; repeat split;
+    try assumption; try apply subset_refl;
+    try (apply subset_inter_l; assumption);
+    repeat match goal with
+           | E : Some _ = Some _ |- _ => injection E as <-
+           | E : (if ?b then _ else _) = Some _ |- _ => destruct b; try discriminate
+           end;
+    try assumption; try (apply subset_inter_l; assumption);
+    try (eapply after_cpu_subset; [exact H1|exact H3|eassumption]).
+Qed.
+
+(* ------------------------------------------------------------------ *)
+(* errors leave the observable state untouched                         *)
+
+(* everything but next_gp_index (alloc_group_object consumes one even when the insertion is refused) *)
+Definition obs (t : topo) :=
+  (m_root t, m_flags t, m_filters t, m_acpu t, m_anode t, m_thissystem t, m_tinfos t, m_extra t).
+
+(* the one call with a partial update before its EINVAL: CUSTOM with both sets given *)
+Definition partial_update_call (c : call) : bool :=
+  match c with CAllow f (Some _) (Some _) => f =? HWLOC_ALLOW_FLAG_CUSTOM | _ => false end.
+
+Theorem step_error_is_identity_partial t c e :
+  partial_update_call c = false -> snd (step t c) = RErr e -> obs (fst (step t c)) = obs t.
+Proof.
+  destruct c; cbn [partial_update_call step]; intros Hp Hr.
+  - unfold step_misc in *. revert Hr. brk; cbn; intros; try discriminate; reflexivity.
+  - unfold step_info_mod in *. revert Hr. brk; cbn; intros; try discriminate; reflexivity.
+  - unfold step_info_mod in *. revert Hr. brk; cbn; intros; try discriminate; reflexivity.
+  - revert Hr. brk; cbn; intros; try discriminate; reflexivity.
+  - unfold step_subtype in *. revert Hr. brk; cbn; intros; try discriminate; reflexivity.
+  - unfold step_allow in *. revert Hr Hp. brk; cbn; intros; try discriminate; try reflexivity.
+    destruct cpuset as [c0|].
+    + congruence.
+    + match goal with E : Some _ = Some _ |- _ => injection E as <- end. reflexivity.
+  - unfold step_group in *. revert Hr. brk; cbn; intros; try discriminate; reflexivity.
+  - cbn in Hr. discriminate.
+Qed.
+
+(* ------------------------------------------------------------------ *)
+(* userdata and the other per-object extras of existing objects        *)
+
+Lemma find_filter_neq (e : list (N * extra)) g g' :
+  (g' =? g) = false ->
+  find (fun p => fst p =? g) (filter (fun p => negb (fst p =? g')) e) = find (fun p => fst p =? g) e.
+Proof.
+  intros Hne. induction e as [|[k v] tl IH]; [reflexivity|]. cbn [filter find fst].
+  destruct (k =? g') eqn:E1; cbn [negb].
+  - apply N.eqb_eq in E1. subst k. rewrite Hne. exact IH.
+  - cbn [find fst]. destruct (k =? g); [reflexivity|exact IH].
+Qed.
+
+Lemma get_put_other e g g' v : (g' =? g) = false -> get_extra (put_extra e g' v) g = get_extra e g.
+Proof.
+  intros Hne. unfold get_extra, put_extra. cbn [find fst]. rewrite Hne. now rewrite find_filter_neq.
+Qed.
+Lemma get_put_same e g v : get_extra (put_extra e g v) g = v.
+Proof. unfold get_extra, put_extra. cbn [find fst snd]. now rewrite N.eqb_refl. Qed.
+
+(* hwloc never alters the userdata of an existing object (objects are named by gp_index; every gp_index in
+   use is below next_gp_index under Inv), whatever the call and its arguments *)
+Theorem userdata_untouched t c g :
+  g < m_next_gp t -> x_ud (get_extra (m_extra (fst (step t c))) g) = x_ud (get_extra (m_extra t) g).
+Proof.
+  intros Hg.
+  assert (Hne : (m_next_gp t =? g) = false) by (apply N.eqb_neq; lia).
+  destruct c; cbn [step].
+  - unfold step_misc. brk; cbn [fst m_extra set_extra set_next_gp set_root]; try reflexivity.
+    rewrite get_put_other by exact Hne. reflexivity.
+  - unfold step_info_mod. brk; cbn [fst m_extra set_extra]; try reflexivity;
+      (destruct (g0 =? g) eqn:E; [apply N.eqb_eq in E; subst g0; rewrite get_put_same; reflexivity | rewrite get_put_other by exact E; reflexivity]).
+  - unfold step_info_mod. brk; cbn [fst m_extra set_extra]; try reflexivity;
+      (destruct (g0 =? g) eqn:E; [apply N.eqb_eq in E; subst g0; rewrite get_put_same; reflexivity | rewrite get_put_other by exact E; reflexivity]).
+  - brk; reflexivity.
+  - unfold step_subtype. brk; cbn [fst m_extra set_extra]; try reflexivity;
+      (destruct (g0 =? g) eqn:E; [apply N.eqb_eq in E; subst g0; rewrite get_put_same; reflexivity | rewrite get_put_other by exact E; reflexivity]).
+  - unfold step_allow. brk; reflexivity.
+  - unfold step_group. brk; cbn [fst m_extra set_extra set_next_gp set_root]; try reflexivity;
+      rewrite get_put_other by exact Hne; reflexivity.
+  - reflexivity.
+Qed.
+
+(* ------------------------------------------------------------------ *)
+(* Inv is preserved by every call that does not restructure the tree   *)
+
+Lemma allowed_ok_same_root t t' :
+  m_root t' = m_root t -> m_acpu t' = m_acpu t -> m_anode t' = m_anode t -> allowed_ok t -> allowed_ok t'.
+Proof. unfold allowed_ok, root_set. intros -> -> ->. auto. Qed.
+
+Lemma step_allowed_ok t c : structural c = false -> allowed_ok t -> allowed_ok (fst (step t c)).
+Proof.
+  destruct c; cbn [structural step]; intros Hs Ha; try discriminate.
+  - unfold step_info_mod. brk; exact Ha.
+  - unfold step_info_mod. brk; exact Ha.
+  - brk; exact Ha.
+  - unfold step_subtype. brk; exact Ha.
+  - apply allow_preserves_allowed, Ha.
+  - exact Ha.
+Qed.
+
+Theorem step_preserves_inv_partial t c : structural c = false -> Inv t -> Inv (fst (step t c)).
+Proof.
+  intros Hs (H1 & H2 & H3 & H4). unfold Inv. rewrite (step_tree_unchanged t c Hs).
+  split; [exact H1|]. split; [exact H2|]. split.
+  - pose proof (step_next_gp_mono t c) as Hm. eapply Forall_impl; [|exact H3]. cbn beta. intros a Ha. lia.
+  - apply step_allowed_ok; assumption.
+Qed.
+
+Theorem history_preserves_inv_partial cs : forall t,
+  forallb (fun c => negb (structural c)) cs = true -> Inv t -> Inv (run t cs).
+Proof.
+  induction cs as [|c tl IH]; intros t Hall Hi; [exact Hi|].
+  cbn [forallb] in Hall. apply andb_true_iff in Hall as [Hc Htl]. apply negb_true_iff in Hc.
+  unfold run. cbn [fold_left]. apply IH; [exact Htl|]. apply step_preserves_inv_partial; assumption.
+Qed.
+
+(* gp_index of every object is stable (the tree is literally the same) through such histories *)
+Theorem gp_index_stable_partial cs : forall t,
+  forallb (fun c => negb (structural c)) cs = true -> m_root (run t cs) = m_root t.
+Proof.
+  induction cs as [|c tl IH]; intros t Hall; [reflexivity|].
+  cbn [forallb] in Hall. apply andb_true_iff in Hall as [Hc Htl]. apply negb_true_iff in Hc.
+  unfold run. cbn [fold_left]. fold (run (fst (step t c)) tl). rewrite IH by exact Htl.
+  apply step_tree_unchanged, Hc.
+Qed.
+
+(* userdata along a whole history, for every call including Group insertion *)
+Theorem history_userdata_untouched cs : forall t g,
+  g < m_next_gp t -> x_ud (get_extra (m_extra (run t cs)) g) = x_ud (get_extra (m_extra t) g).
+Proof.
+  induction cs as [|c tl IH]; intros t g Hg; [reflexivity|].
+  unfold run. cbn [fold_left]. fold (run (fst (step t c)) tl).
+  rewrite IH; [apply userdata_untouched, Hg|].
+  pose proof (step_next_gp_mono t c). lia.
+Qed.
+
+(* ------------------------------------------------------------------ *)
+(* witnesses: a 4-PU machine, two packages                              *)
+
+Definition S (n : N) : option bset := Some (bs_of_N n).
+Definition mk (ty gp cs : N) (n : list obj) : obj :=
+  Obj (fresh_dobj ty gp (S cs) (S cs) (S 1) (S 1) (-1)%Z (-1)%Z) n [] [] [].
+Definition mkg (gp cs : N) (kind : Z) (n : list obj) : obj :=
+  Obj (fresh_dobj HWLOC_OBJ_GROUP gp (S cs) (S cs) (S 1) (S 1) kind 0%Z) n [] [] [].
+Definition pu (gp i : N) : obj := mk HWLOC_OBJ_PU gp (N.shiftl 1 i) [].
+Definition filters0 : list N := repeat 0 20.
+
+(* Machine > Package{0,1} , Package{2,3} *)
+Definition tree0 : obj :=
+  mk HWLOC_OBJ_MACHINE 1 15 [mk HWLOC_OBJ_PACKAGE 2 3 [pu 3 0; pu 4 1]; mk HWLOC_OBJ_PACKAGE 5 12 [pu 6 2; pu 7 3]].
+Definition topo0 : topo := mkTopo tree0 1 filters0 (bs_of_N 15) (bs_of_N 1) 8 false [] [].
+
+(* the same with a user Group (kind 5, mergeable, userdata set) around PU 0 and PU 1... of a 4-core package *)
+Definition tree1 : obj :=
+  mk HWLOC_OBJ_MACHINE 1 15 [mk HWLOC_OBJ_PACKAGE 2 15 [mkg 8 3 5%Z [pu 3 0; pu 4 1]; pu 6 2; pu 7 3]].
+Definition topo1 : topo := mkTopo tree1 1 filters0 (bs_of_N 15) (bs_of_N 1) 9 false [] [(8, mkExtra None None [] true false)].
+(* the same Group with dont_merge *)
+Definition topo2 : topo := mkTopo tree1 1 filters0 (bs_of_N 15) (bs_of_N 1) 9 false [] [(8, mkExtra None None [] true true)].
+
+Definition gsp (cs : N) (dm : bool) (kind : N) : gspec := mkG (S cs) None None None dm kind 0 false None.
+
+Lemma Inv_topo0 : Inv topo0.
+Proof. unfold Inv, allowed_ok. repeat split; try (vm_compute; reflexivity). repeat constructor. Qed.
+Lemma Inv_topo1 : Inv topo1.
+Proof. unfold Inv, allowed_ok. repeat split; try (vm_compute; reflexivity). repeat constructor. Qed.
+Lemma Inv_topo2 : Inv topo2.
+Proof. unfold Inv, allowed_ok. repeat split; try (vm_compute; reflexivity). repeat constructor. Qed.
+
+(* a well-formed insertion: Group {2,3}... of topo1's package is inserted and Inv still holds *)
+Lemma group_ok_example :
+  snd (step topo1 (CGroup (gsp 12 false 0))) = RObj (Some 9) true /\
+  tree_inv (m_root (fst (step topo1 (CGroup (gsp 12 false 0))))) = true.
+Proof. split; vm_compute; reflexivity. Qed.
+
+(* hwloc__insert_try_merge_group returns the struct that hwloc_replace_linked_object has just zeroed:
+   a dont_merge Group over a mergeable Group with the same cpuset *)
+Lemma group_replace_returns_zeroed :
+  snd (step topo1 (CGroup (gsp 3 true 3))) = RObj (Some 0) true /\
+  existsb (N.eqb 8) (gps (m_root (fst (step topo1 (CGroup (gsp 3 true 3)))))) = false.
+Proof. split; vm_compute; reflexivity. Qed.
+
+(* a mergeable Group of smaller kind overwrites the existing Group: its gp_index (8) disappears without any restrict *)
+Lemma group_smaller_kind_replaces_identity :
+  snd (step topo1 (CGroup (gsp 3 false 3))) = RObj (Some 9) false /\
+  existsb (N.eqb 8) (gps (m_root topo1)) = true /\
+  existsb (N.eqb 8) (gps (m_root (fst (step topo1 (CGroup (gsp 3 false 3)))))) = false.
+Proof. repeat split; vm_compute; reflexivity. Qed.
+
+(* two dont_merge Groups of different kinds with the same cpuset become siblings: Inv is lost *)
+Lemma group_dontmerge_same_cpuset_breaks_inv :
+  tree_inv (m_root (fst (step topo2 (CGroup (gsp 3 true 7))))) = false.
+Proof. vm_compute. reflexivity. Qed.
+
+(* CUSTOM with a usable cpuset and a nodeset outside the topology: EINVAL after allowed_cpuset was overwritten *)
+Definition topo0d : topo := mkTopo tree0 1 filters0 (bs_of_N 15) (bs_of_N 1) 8 false [] [].
+Lemma allow_einval_partial_update :
+  snd (step topo0d (CAllow HWLOC_ALLOW_FLAG_CUSTOM (S 3) (S 32))) = RErr EINVAL /\
+  m_acpu (fst (step topo0d (CAllow HWLOC_ALLOW_FLAG_CUSTOM (S 3) (S 32)))) = bs_of_N 3 /\
+  m_acpu topo0d = bs_of_N 15.
+Proof. repeat split; vm_compute; reflexivity. Qed.
+
+(* ALL copies the root COMPLETE sets: with an offline PU (complete_cpuset 0x1f, cpuset 0xf) the allowed
+   cpuset leaves the root cpuset *)
+Definition tree_off : obj :=
+  match tree0 with Obj d n m i x => Obj (set_sets d (S 15) (S 31) (S 1) (S 1)) n m i x end.
+Definition topo_off : topo := mkTopo tree_off 1 filters0 (bs_of_N 15) (bs_of_N 1) 8 false [] [].
+Lemma allow_all_leaves_root_cpuset :
+  bs_subset (m_acpu topo_off) (root_set topo_off o_cs) = true /\
+  snd (step topo_off (CAllow HWLOC_ALLOW_FLAG_ALL None None)) = RInt 0 /\
+  bs_subset (m_acpu (fst (step topo_off (CAllow HWLOC_ALLOW_FLAG_ALL None None)))) (root_set topo_off o_cs) = false.
+Proof. repeat split; vm_compute; reflexivity. Qed.
